@@ -390,6 +390,13 @@ func vfC19Scenarios(thorough bool) []*vfGWScenario {
 		Prefix: []string{"conn:a", "conn:b", "conn:c", "conn:d", "sub:a:t", "sub:b:t", "sub:c:t", "sub:d:t"}},
 		Alphabet: []string{"join:t", "leave:t", "hb", "graft:a:t", "prune:a:t", "graft:c:t", "prune:b:t:8", "score:a:-1", "score:b:-1", "disc:a", "conn:a", "sub:a:t", "pub:b:m1", "iwant:a:m1", "ihave:a:t:m2", "lpub:t:p1", "adv:2500"},
 		Msgs:     msgs, Depth: d})
+	// a full mesh (Dhi members) and more inbound peers that GRAFT: the refusals (answered with PRUNE) are not additions
+	{
+		p5 := []vfPeerCfg{{Name: "a", Proto: "v11", IP: "10.0.0.1"}, {Name: "b", Proto: "v12", IP: "10.0.0.2"}, {Name: "c", Proto: "v11", IP: "10.0.0.3"}, {Name: "e", Proto: "v11", IP: "10.0.0.5"}, {Name: "f", Proto: "v12", IP: "10.0.0.6", Outbound: true}}
+		out = append(out, &vfGWScenario{Name: "gossip-full-mesh", Cfg: vfGWCfg{Router: "gossip", Peers: p5, Topics: []string{"t"}, Params: "d2", Scoring: true, Tracer: true, SeenTTL: 3600,
+			Prefix: []string{"conn:a", "conn:b", "conn:c", "conn:e", "conn:f", "sub:a:t", "sub:b:t", "sub:c:t", "sub:e:t", "sub:f:t", "join:t", "graft:a:t", "graft:b:t", "graft:c:t"}},
+			Alphabet: []string{"graft:e:t", "graft:f:t", "graft:a:t", "prune:a:t", "hb", "score:e:-1", "leave:t", "join:t"}, Msgs: msgs, Depth: d})
+	}
 	// stream-level life of a mesh peer, among them a peer that is only ever inbound (our stream to it is still being
 	// opened or fails) and GRAFTs itself in: whatever removes it from the mesh must show in the trace
 	pq := []vfPeerCfg{{Name: "p", Proto: "v11", IP: "10.0.0.1"}, {Name: "q", Proto: "v12", IP: "10.0.0.2"}}
